@@ -259,6 +259,7 @@ class Kernel:
         self.inject = dict(inject or {})
         self.term, self.abrt, self.settle = term, abrt, settle
         self.late_delay = late_delay
+        self.wall_offset = 1700000000.0
         self.now = 1000.0
         self.procs = {}
         self.reaped = []
@@ -386,6 +387,9 @@ class Kernel:
                         del self.fs.files[path]
         elif kind == "tick":
             self.advance(1.0)
+        elif kind == "clock-step":
+            # the administrator (or NTP) steps the wall clock; the monotonic clock is unaffected
+            self.wall_offset += ev[1]
         elif kind == "pass":
             # time passes, but less than the master's select timeout: only meaningful in a compound event together
             # with something that wakes the master up
@@ -603,7 +607,8 @@ class Kernel:
         class Time:
             @staticmethod
             def time():
-                return k.now
+                # the wall clock: unrelated to the monotonic clock the heartbeat protocol runs on (and it can be stepped)
+                return k.now + k.wall_offset
 
             @staticmethod
             def monotonic():
